@@ -941,8 +941,8 @@ def e_function_call(b):
     kind = rng.choice(["leaky", "constattr", "nested", "castlike"])
     fname = f"fn_{kind}_{len(b.functions)}"
     dom = "local.verif"
-    fx = "fx"
     pre = f"{fname}_"
+    fx = pre + "fx"
     if kind == "leaky":
         a = helper.make_node("LeakyRelu", [fx], [pre + "t"])
         a.attribute.append(helper.make_attribute_ref("alpha", onnx.AttributeProto.FLOAT) if hasattr(helper, "make_attribute_ref") else _ref_attr("alpha", "alpha", onnx.AttributeProto.FLOAT))
@@ -963,7 +963,8 @@ def e_function_call(b):
         attrs, call_attrs, exact = [], {}, v.exact
     else:
         inner = f"fn_inner_{len(b.functions)}"
-        b.functions.append(helper.make_function(dom, inner, ["ix"], ["iy"], [helper.make_node("Neg", ["ix"], ["iy"])],
+        b.functions.append(helper.make_function(dom, inner, [inner + "_ix"], [inner + "_iy"],
+                                                [helper.make_node("Neg", [inner + "_ix"], [inner + "_iy"])],
                                                 [helper.make_opsetid("", b.opset)]))
         nodes = [helper.make_node(inner, [fx], [pre + "t"], domain=dom), helper.make_node("Relu", [pre + "t"], [pre + "y"])]
         attrs, call_attrs, exact = [], {}, v.exact
@@ -1078,9 +1079,12 @@ def gen_dag(rng, idx, profile="mixed", n_nodes=None, overridable=False, value_in
     # value_info: all, some or none of the intermediate values
     vis = []
     if value_info != "none":
+        # annotations must not claim more than the declared inputs allow: with a symbolic input the intermediate
+        # shapes are symbolic too (as ONNX shape inference would leave them)
+        any_sym = any(sym_inputs.values())
         for v in b.vals:
             if v.seq is None and v.name in produced and (value_info == "all" or rng.random() < 0.5):
-                vis.append(_vi(v.name, v.dtype, v.shape, sym=False))
+                vis.append(_vi(v.name, v.dtype, v.shape, sym=any_sym and v.dtype != STR))
     g = helper.make_graph(b.nodes, f"g{idx}", b.inputs, [_vi(o.name, o.dtype, o.shape, sym=True) for o in outs], initializer=b.inits, value_info=vis)
     opsets = [helper.make_opsetid("", opset)]
     if b.functions:
